@@ -4,6 +4,7 @@
 package rt
 
 import (
+	"encoding/hex"
 	"fmt"
 	"sync"
 )
@@ -307,4 +308,27 @@ func (r *Recorder) Unstable() string {
 		n++
 	}
 	return ""
+}
+
+// LitCheck is returned by L.
+type LitCheck struct{ bad string }
+
+// LitMismatch holds the first literal mismatch seen since it was last cleared (single-threaded tasks only).
+var LitMismatch string
+
+// L compares a literal as the generated action spells it with the value the grammar's action text denotes (hex).
+func L(got, wantHex string) LitCheck {
+	want, err := hex.DecodeString(wantHex)
+	if err != nil || string(want) != got {
+		return LitCheck{fmt.Sprintf("a literal of the action reached the generated code as %q, the grammar says %q", got, want)}
+	}
+	return LitCheck{}
+}
+
+// A records the mismatch, if any, and behaves like the package-level A.
+func (l LitCheck) A(c any, alt int, args ...any) (any, error) {
+	if l.bad != "" && LitMismatch == "" {
+		LitMismatch = l.bad
+	}
+	return A(c, alt, args...)
 }
